@@ -32,6 +32,9 @@ def gen_cases(rng, tier):
         cases.append({"digest": rng.choice(["md5", "sha1", "sha256"]), "key": rng.choice(KEYS), "vi": rng.randrange(len(VALUES)),
                       "mut": rng.choice(["case_at", "case_header"]), "pos": rng.random() * 0.5, "pos2": 0, "byte": 0, "vj": 0, "key2": "k",
                       "other_secret": "0ther", "via_url": False})
+    for i in range(len(FOREIGN) * 3):     # foreign bytes that merely look like a number (only all-digit values bypass the signature)
+        cases.append({"digest": ["md5", "sha1", "sha256"][i % 3], "key": "k", "vi": 0, "mut": "foreign", "pos": 0, "pos2": 0, "byte": i // 3, "vj": 0,
+                      "key2": "k", "other_secret": "0ther", "via_url": False})
     if tier == "thorough":  # every position x substitution set, 3 blobs x 3 digests
         for dg in ("md5", "sha1", "sha256"):
             for vi in (0, 2, 4):
@@ -41,8 +44,13 @@ def gen_cases(rng, tier):
     return cases
 
 
+FOREIGN = [b"1_2", b"4_2_0", b"12\n", b" 7", b"+5", b"-3", b"1e3", b"0x10", b"12 ", b"\t8", b"007", b"1.5"]
+
+
 def _mutate(case, blob, other):
     m = case["mut"]
+    if m == "foreign":
+        return FOREIGN[case["byte"] % len(FOREIGN)]
     n = len(blob)
     i = min(n - 1, int(case["pos"] * n))
     if m == "subst_at":
